@@ -45,3 +45,8 @@ mod c19;
 mod c20;
 #[path = "/verif/harness/c24.rs"]
 pub mod c24;
+#[path = "/verif/harness/c22.rs"]
+pub mod c22;
+#[cfg(kani)]
+#[path = "/verif/harness/btmodel.rs"]
+pub mod btmodel;
